@@ -61,14 +61,17 @@ try:
             env = dict(os.environ, PYTHONPATH=wt)
             env.pop("GLUE_VERIF", None)
             r = run([PY, "-m", "pytest", "-q", "-p", "no:cacheprovider", "--timeout=900", "-n", "5",
-                     "--continue-on-collection-errors", "-x", "--deselect", "glue/core/data_factories/tests/test_pandas.py",
-                     "glue"], cwd=wt, env=env, timeout=3600)
+                     "--continue-on-collection-errors", "-rf", "glue"], cwd=wt, env=env, timeout=3600)
             tail = (r.stdout + r.stderr)[-1500:]
             m = re.search(r"(\d+) failed", tail)
             out["suite_failed"] = int(m.group(1)) if m else 0
             m = re.search(r"(\d+) passed", tail)
             out["suite_passed"] = int(m.group(1)) if m else 0
-            out["suite_failures"] = re.findall(r"^FAILED (\S+)", r.stdout, re.M)[:12]
+            ALWAYS = ["test_csv_pandas_factory", "test_excel_single", "test_translator_data_roundtrip",
+                      "test_translator_from_data", "test_translator_from_subset", "test_CategoricalComponent_conversion",
+                      "test_Data_conversion", "test_wcs_autolink_emptywcs"]
+            fails = re.findall(r"^FAILED (\S+)", r.stdout, re.M)
+            out["suite_new_failures"] = [f for f in fails if not any(a in f for a in ALWAYS)][:12]
         for prop in a.props:
             env = dict(os.environ, VERIF_GLUE_PATH=wt)
             r = run(["./check", prop, "--tier", a.tier, "--shards", a.shards], cwd="/verif", env=env, timeout=7200)
